@@ -10,7 +10,7 @@ here = os.path.dirname(os.path.abspath(__file__))
 sys.path.insert(0, here)
 sys.path.insert(0, os.path.join(here, "..", "C02"))
 from vlib import guarded_main
-import specnum23, ttcheck
+import specnum23, ttcheck, convtable
 
 C02COQ = os.path.join(here, "..", "C02", "coq")
 # groups: 0 stress conversions and helpers, 1 converters (no inverse of F1), 2 converters through F1^-1, 3 round trips
@@ -22,12 +22,34 @@ def main(c):
     ttcheck.run(c, "C23", groups=[0, 1, 2, 3], parts=PARTS, spec=specnum23,
                 spec_files=[os.path.abspath(os.path.join(C02COQ, f)) for f in ("TensorIndex.v", "NsatzTac.v", "TensorTactics.v")] + ["C23Spec.v", "C23Tactics.v"],
                 prop_files_quick=["Properties_C23.v"], prop_files_thorough=["Properties_C23_full.v"],
-                conditional={"DS_DF_from_DS_DEGL": ("Properties_C23_dsdf.v", "Properties_C23_dsdf_refuted.v")})
+                conditional={"DS_DF_from_DS_DEGL": ("Properties_C23_dsdf.v", "Properties_C23_dsdf_refuted.v")},
+                # LogarithmicStrainHandler (the four converters from DT_DELOG, executed with double only)
+                extra_support=["src/Math/LUException.cxx", "src/Material/LogarithmicStrainHandler.cxx"])
+    # ---- mfront's run-time conversion table and path finder (real code enumerated on every (known set, target); Coq model of
+    # the search proved on the table regenerated from this run): every registered conversion must be an operation of the
+    # registry above (traced + proved, or, from DT_DELOG, executed)
+    convs = convtable.run(c)
+    dtdelog = {"DS_DC_from_DT_DELOG": "DTDELOG_DS_DC_minus_half_DS_DEGL", "SPATIAL_MODULI_from_DT_DELOG": "DTDELOG_SPATIAL_minus_pushforward_DS_DEGL",
+               "C_TRUESDELL_from_DT_DELOG": "DTDELOG_TRUESDELL_minus_SPATIAL_over_J", "DS_DEGL_from_DT_DELOG": "DTDELOG_DS_DEGL_at_identity"}
+    missing = [n for n in convs if dtdelog.get(n, n) not in specnum23.SPEC]
+    for n in missing:
+        c.report("paths:unverified:" + n, "conversion %s of mfront's run-time table is not an operation of C23's registry (props/C23/trace.cxx): "
+                 "a conversion path may use a converter this check neither traces nor executes" % n, {"conversion": n}, False)
+    c.notes.append("%d conversions registered in mfront's run-time table, all of them operations of the registry: %s" % (len(convs), not missing))
+    # ---- the chain-rule formulas of C23Spec.v ARE derivatives: Saint-Venant-Kirchhoff oracle by auto_derive (thorough tier)
+    if not c.quick():
+        res = c.coq(["C23Derive.v", "Properties_C23_derive.v"], timeout=2400)
+        if not res.ok:
+            c.coq_failures(res)
+        c.notes.append("Saint-Venant-Kirchhoff oracle (coq/C23Derive.v, auto_derive): spec_DS_DF_from_DS_DEGL, spec_DPK1_DF_from_DS_DEGL (1D, 2D), "
+                       "spec_DTAU_DF_from_DS_DF, spec_DSIG_DF_from_DTAU_DF, spec_DTAU_DF_from_DPK1_DF (1D), spec_DS_DC_from_DS_DEGL (3D, symmetrised direction) "
+                       "are the Jacobians of S, P, tau, sigma w.r.t. the stored components of F")
     c.coverage["rule"] = ("every operation of the registry (props/C23/trace.cxx) x N=1,2,3 (quick: N=1,2 and the cheap 3D instances); seeded inputs per operation: "
                           "generic reals in [-2,2], small integers incl. zeros and ties, one magnitude 1e-3..1e3 per input; deformation gradients whose "
                           "inverse is used = identity + perturbation (det > 0)")
     c.assumptions.append("real arithmetic: the theorems are over R; rounding of the double code is only checked on the seeded inputs")
-    c.assumptions.append("'is the derivative of the target stress w.r.t. the target kinematic variable' is carried by the chain-rule formulas of coq/C23Spec.v (not re-derived by differentiation in Coq)")
+    c.assumptions.append("'is the derivative of the target stress w.r.t. the target kinematic variable' is carried by the chain-rule formulas of coq/C23Spec.v; "
+                         "re-derived by auto_derive only for a Saint-Venant-Kirchhoff response and the formulas listed in the notes (thorough tier)")
 
 
 guarded_main("C23", main)
